@@ -378,6 +378,29 @@ pub fn run(tier: &str) -> Result<Report, String> {
             }
         }
     }
+    // boundary: the empty list through the multi-formula entry points (no panic, no result for nothing)
+    {
+        let g = &env.graphs[1];
+        let ctx = env.ctx_for(1, &mixed);
+        let outs: Vec<(&str, Result<Result<usize, String>, String>)> = vec![
+            ("model_check_multiple_formulae([])", guarded(AssertUnwindSafe(|| mc::model_check_multiple_formulae(vec![], g).map(|v| v.len())))),
+            ("model_check_multiple_formulae_dirty([])", guarded(AssertUnwindSafe(|| mc::model_check_multiple_formulae_dirty(vec![], g).map(|v| v.len())))),
+            ("model_check_multiple_extended_formulae([])", guarded(AssertUnwindSafe(|| mc::model_check_multiple_extended_formulae(vec![], g, &ctx).map(|v| v.len())))),
+            ("model_check_multiple_extended_formulae_dirty([])", guarded(AssertUnwindSafe(|| mc::model_check_multiple_extended_formulae_dirty(vec![], g, &ctx).map(|v| v.len())))),
+            ("model_check_multiple_trees([])", guarded(AssertUnwindSafe(|| mc::model_check_multiple_trees(vec![], g).map(|v| v.len())))),
+        ];
+        for (name, o) in outs {
+            rep.evaluations += 1;
+            let what = match o {
+                Ok(Ok(0)) | Ok(Err(_)) => None,
+                Ok(Ok(n)) => Some(format!("{name} returns {n} results")),
+                Err(p) => Some(format!("{name} panics: {p}")),
+            };
+            if let Some(w) = what {
+                rep.violations.push(Violation { case: json!({"kind": "none"}), what: w, size: 0 });
+            }
+        }
+    }
     rep.sample(json!({"input": "!{x}: @{y}: a", "expected": "Err from every entry point (free jump target), for every k"}));
     rep.sample(json!({"input": "3{y} in %d%: ~ {y}", "labels_present": ["p"], "expected": "Err (domain d has no context set)"}));
     rep.sample(json!({"input": "3{y} in %d%: ~ {y}", "labels_present": ["p", "d"], "k": 0, "expected": "Err (needs 1 spare variable set)"}));
